@@ -2,6 +2,7 @@ package vsched
 
 import (
 	"fmt"
+	"reflect"
 )
 
 // ---------------------------------------------------------------- channels
@@ -22,6 +23,10 @@ type chanCore struct {
 	recvVCs []VC
 
 	hRQ, hSQ uint64 // commutative hashes of the parked receivers / senders
+
+	// the real channel behind it: used when no scheduler is active (checks that run the
+	// instrumented packages sequentially, without exploring schedules)
+	rv reflect.Value
 
 	// a channel made outside any execution (package-level variable): its state starts afresh
 	// in every execution, on first use
@@ -56,10 +61,7 @@ func (k *chanCore) synced() *chanCore {
 
 func newCore(capacity int, kind string) *chanCore {
 	if S == nil {
-		if kind != "chan" {
-			panic("vsched: timer created outside the scheduler")
-		}
-		return &chanCore{cap: capacity, global: true, name: "global-chan"}
+		return &chanCore{cap: capacity, global: true, name: "global-" + kind}
 	}
 	o := NewObj(kind)
 	k := &chanCore{obj: o, cap: capacity}
@@ -75,7 +77,43 @@ func MakeChan[T any](capacity ...int) *Chan[T] {
 	if n < 0 {
 		panic("makechan: size out of range")
 	}
-	return &Chan[T]{core: newCore(n, "chan")}
+	k := newCore(n, "chan")
+	k.rv = reflect.ValueOf(make(chan T, n))
+	return &Chan[T]{core: k}
+}
+
+// selectFree is a select statement on the real channels (no scheduler active).
+func selectFree(hasDefault bool, cs []Case) Sel {
+	rc := make([]reflect.SelectCase, 0, len(cs)+1)
+	for _, c := range cs {
+		sc := reflect.SelectCase{Dir: reflect.SelectRecv}
+		if c.core != nil {
+			sc.Chan = c.core.rv
+		}
+		if c.send {
+			sc.Dir = reflect.SelectSend
+			if c.core != nil {
+				if c.val == nil {
+					sc.Send = reflect.Zero(c.core.rv.Type().Elem())
+				} else {
+					sc.Send = reflect.ValueOf(c.val)
+				}
+			}
+		}
+		rc = append(rc, sc)
+	}
+	if hasDefault {
+		rc = append(rc, reflect.SelectCase{Dir: reflect.SelectDefault})
+	}
+	i, v, ok := reflect.Select(rc)
+	if hasDefault && i == len(cs) {
+		return Sel{I: -1}
+	}
+	r := Sel{I: i, Ok: ok}
+	if !cs[i].send && v.IsValid() && ok {
+		r.V = v.Interface()
+	}
+	return r
 }
 
 // SetName gives the channel a readable name in traces (harness use).
@@ -90,8 +128,12 @@ func (c *Chan[T]) SetName(n string) *Chan[T] {
 // decides that the timer fires.
 func NewTimerChan[T any](v T) *Chan[T] {
 	k := newCore(1, "timer")
+	k.rv = reflect.ValueOf(make(chan T, 1))
 	k.isTimer = true
 	k.timerVal = v
+	if S == nil {
+		return &Chan[T]{core: k} // never fires by itself; vtime arms a real timer on it
+	}
 	S.timers = append(S.timers, k)
 	return &Chan[T]{core: k}
 }
@@ -155,11 +197,11 @@ func Select(hasDefault bool, cases ...Caser) Sel {
 	for i, c := range cases {
 		cs[i] = c.kase()
 	}
+	if S == nil {
+		return selectFree(hasDefault, cs)
+	}
 	o := &Op{isSel: true, cases: cs, hasDefault: hasDefault, Name: "select"}
 	if !Post(o) {
-		if S == nil {
-			panic("vsched: channel operation outside the scheduler")
-		}
 		// execution is being torn down: behave as a no-op
 		return Sel{I: -1}
 	}
@@ -192,6 +234,10 @@ func (c *Chan[T]) Close() {
 		panic(chanError("close of nil channel"))
 	}
 	k := c.core.synced()
+	if S == nil {
+		k.rv.Close()
+		return
+	}
 	var perr string
 	ok := Post(&Op{Name: "close " + k.name, Obj: k.obj, Global: true, Exec: func(t *Thread, _ int) {
 		if k.closed {
@@ -240,6 +286,9 @@ func (c *Chan[T]) Len() int {
 		return 0
 	}
 	k := c.core.synced()
+	if S == nil {
+		return k.rv.Len()
+	}
 	n := 0
 	if !Post(&Op{Name: "len " + k.name, Obj: k.obj, ReadOnly: true, Exec: func(t *Thread, _ int) { n = len(k.buf) }}) {
 		return len(k.buf)
